@@ -24,7 +24,7 @@ def generate(ctx):
         name = FAMILY[i % len(FAMILY)]
         d = {"part": "formula", "trainer": name, "conn": rng.choice(["dense", "direct", "lateral", "conv"]), "dt": rng.choice([1.0, 0.5]),
              "B": rng.randint(1, 3), "T": rng.randint(6, 14), "signs": rng.randrange(4), "reduction": rng.choice(["sum", "sum", "mean", "amax"]),
-             "reward": rng.choice(["scalar+", "scalar-", "tensor", "tensor"]), "scale": rng.choice([1.0, 0.5]),
+             "reward": rng.choice(["scalar+", "scalar-", "tensor", "tensor"]), "scale": rng.choice([1.0, 0.5, -0.5, -1.5]),
              "p": rng.choice([0.2, 0.4, 0.7]), "seed": rng.randrange(1 << 30), "delay": rng.choice([1, 2, 3]),
              "delay_values": rng.choice(["ongrid", "offgrid", "zero"]), "reassign_delays": rng.random() < 0.4,
              "per_cell": rng.random() < 0.4, "inplace": rng.random() < 0.5, "clear_at": rng.choice([None, None, 2, 3, 5]), "keepshape": rng.random() < 0.6,
@@ -70,7 +70,7 @@ def generate(ctx):
         yield {"part": "multicell", "trainer": FAMILY[i % len(FAMILY)], "dt": rng.choice([1.0, 0.5]), "B": rng.randint(1, 2),
                "T": rng.randint(6, 10), "hypers": [base, other], "topology": ["fan_in", "fan_out", "two_layers"][(i // len(FAMILY)) % 3],
                "freeze_at": rng.choice([3, 5, 10 ** 9]), "reduction": "sum", "reward": rng.choice(["scalar+", "scalar-", "tensor"]),
-               "scale": rng.choice([1.0, 0.25, 2.0]), "p": rng.choice([0.4, 0.7]), "seed": rng.randrange(1 << 30),
+               "scale": rng.choice([1.0, 0.25, 2.0, -0.5, -1.5]), "p": rng.choice([0.4, 0.7]), "seed": rng.randrange(1 << 30),
                "partial_calls": rng.random() < 0.6}
     for sg in range(4):
         for k in (0, 1, 2):
